@@ -127,10 +127,11 @@ func (r *Run) do(o M) M {
 	}
 	if op == "begin" {
 		// the start timestamp is fetched inside Begin: log the call before it
-		w.rec.emit(call)
+		callSeq := w.rec.emit(call)
 		cl := w.client(gets(o, "client"))
 		t, err := cl.store.Begin()
-		ret := M{"ev": "api_ret", "c": op, "txn": gets(o, "txn"), "client": cl.name, "class": errClass(err)}
+		// call_seq: the start ts is fetched somewhere between the call and this return, so "began after X" means "called after X"
+		ret := M{"ev": "api_ret", "c": op, "txn": gets(o, "txn"), "client": cl.name, "class": errClass(err), "call_seq": callSeq}
 		if err == nil {
 			t.SetBackgroundGoroutineLifecycleHooks(transaction.LifecycleHooks{
 				Pre:  func() { atomic.AddInt64(&w.bg, 1) },
